@@ -47,7 +47,13 @@ def need(draw, env):
         table["auxdone"] = 0
     k = _weighted(draw, table)
     n = {"kind": k, "neg": draw(st.sampled_from([False, False, False, True]))}
-    if k == "cmp":
+    if k == "cmp" and prof.get("driver_cmp") and draw(st.booleans()):
+        # the driver framer increments .n.a every tick: these conditions flip from false to true over time
+        n["state"] = ".n.a"
+        n["op"] = draw(st.sampled_from([">=", ">=", ">", "=="]))
+        n["goal"] = draw(st.integers(1, 8))
+        n["neg"] = False
+    elif k == "cmp":
         if draw(st.integers(0, 7)) == 0:
             n["state"] = STR[0]
             n["op"] = draw(st.sampled_from(["==", "!="]))
@@ -328,3 +334,114 @@ def program(draw, profile=None):
     prog = {"period": draw(st.sampled_from(prof["periods"])), "ticks": draw(st.integers(*prof["ticks"])),
             "inits": inits, "framers": framers}
     return prog
+
+
+# ---------------------------------------------------------------------------------------
+# directed family: suspension scenarios (conditional aux + leaving / re-entering its main frame)
+@st.composite
+def suspend_scenario(draw):
+    """One main framer with a branching frame tree, started in an arbitrary (often non-primary)
+    branch, a conditional aux on the first frame or one of its ancestors that starts at a drawn
+    tick and completes after a drawn number of ticks or never, optionally a second conditional
+    aux on another frame of the chain, and one or two 'disturbances' at drawn ticks: a transition
+    from a frame at or above the main frame (to itself, to the active frame, to an ancestor, to a
+    sibling branch, to another top-level frame) or a stop / abort bid from another framer.
+    Every frame carries enter / recur / exit acts so that suspension and exits are observable."""
+    names = ["a", "b", "c1", "c2", "d1", "d2", "e"]
+    parent = {"a": None, "b": "a"}
+    for n in ("c1", "c2"):
+        parent[n] = "b"
+    parent["d1"] = draw(st.sampled_from(["c1", "c2"]))
+    parent["d2"] = draw(st.sampled_from(["c1", "c2", "d1"]))
+    parent["e"] = None
+    use = ["a", "b", "c1", "c2"] + [n for n in ("d1", "d2") if draw(st.booleans())] + ["e"]
+    if "d2" in use and parent["d2"] == "d1" and "d1" not in use:
+        parent["d2"] = "c2"
+    # declaration order: sibling order drawn (decides the primary child), parents first
+    placed = ["a", "b"] + draw(st.permutations([n for n in use if n not in ("a", "b", "e")]))
+    # reorder so that every parent precedes its child
+    done = []
+    pending = list(placed)
+    while pending:
+        for n in list(pending):
+            if parent[n] is None or parent[n] in done:
+                done.append(n)
+                pending.remove(n)
+    order = done + ["e"]
+    first = draw(st.sampled_from([n for n in order if n != "e"]))
+    chain = []
+    x = first
+    while x is not None:
+        chain.append(x)
+        x = parent[x]
+    main = draw(st.sampled_from(chain))
+    t_start = draw(st.integers(1, 4))
+    dur = draw(st.sampled_from([0, 1, 2, 3, None, None]))
+    frames = {n: {"name": n, "over": parent[n], "acts": []} for n in order}
+    for n in order:
+        for ctx, path in (("enter", ".n.b"), ("recur", ".n.c"), ("exit", ".n.b")):
+            if draw(st.integers(0, 3)) > 0:
+                frames[n]["acts"].append({"kind": "inc", "dst": path, "val": 1, "ctx": ctx})
+    geq = lambda k: {"kind": "cmp", "state": ".n.a", "op": ">=", "goal": k, "neg": False}
+    eq = lambda k: {"kind": "cmp", "state": ".n.a", "op": "==", "goal": k, "neg": False}
+    aux_act = {"kind": "aux", "name": "x0", "needs": [draw(st.sampled_from([geq, eq]))(t_start)]}
+    auxes = [{"name": "x0", "sched": "aux", "order": None, "period": None, "first": None, "frames": []}]
+    xa = {"name": "xa", "over": None, "acts": [{"kind": "inc", "dst": ".n.c", "val": 1, "ctx": "recur"}]}
+    if dur is None:
+        auxes[0]["frames"] = [xa]
+    else:
+        xa["acts"].append({"kind": "go", "far": "xb", "needs": [geq(t_start + dur)]})
+        auxes[0]["frames"] = [xa, {"name": "xb", "over": None, "acts": [{"kind": "done", "targets": ["me"]}]}]
+    # disturbances
+    above = []
+    x = main
+    while x is not None:
+        above.append(x)
+        x = parent[x]
+    dist_acts = []
+    others = []
+    for _ in range(draw(st.integers(1, 2))):
+        t = draw(st.integers(t_start, t_start + 5))
+        kind = draw(st.sampled_from(["go", "go", "go", "stop", "abort"]))
+        if kind == "go":
+            src = draw(st.sampled_from(above))
+            far = draw(st.sampled_from(["me", first, "e", "a", "c1", "c2", main]))
+            act = {"kind": "go", "far": far, "needs": [draw(st.sampled_from([geq, eq]))(t)]}
+            where = draw(st.sampled_from(["before", "after"]))
+            dist_acts.append((src, act, where))
+        else:
+            others.append({"kind": "bid", "verb": kind, "targets": ["m0"], "needs_tick": t})
+    frames[main]["acts"].append(aux_act)
+    for src, act, where in dist_acts:
+        if where == "before":
+            # before the aux clause (or at the front) so it is evaluated while the aux runs
+            idx = 0
+            frames[src]["acts"].insert(idx, act)
+        else:
+            frames[src]["acts"].append(act)
+    # optional second conditional aux on another frame of the chain
+    if draw(st.integers(0, 2)) == 0:
+        other = draw(st.sampled_from(chain))
+        t2 = draw(st.integers(1, 6))
+        frames[other]["acts"].append({"kind": "aux", "name": "x1", "needs": [geq(t2)]})
+        d2 = draw(st.sampled_from([0, 1, 3, None]))
+        ya = {"name": "ya", "over": None, "acts": []}
+        fr2 = {"name": "x1", "sched": "aux", "order": None, "period": None, "first": None, "frames": [ya]}
+        if d2 is not None:
+            ya["acts"].append({"kind": "go", "far": "yb", "needs": [geq(t2 + d2)]})
+            fr2["frames"].append({"name": "yb", "over": None, "acts": [{"kind": "done", "targets": ["me"]}]})
+        auxes.append(fr2)
+    framers = [{"name": "drv", "sched": "active", "order": "front", "period": None, "first": None,
+                "frames": [{"name": "drva", "over": None, "acts": [{"kind": "inc", "dst": ".n.a", "val": 1, "ctx": "recur"}]}]},
+               {"name": "m0", "sched": "active", "order": None, "period": None, "first": first,
+                "frames": [frames[n] for n in order]}] + auxes
+    if others:
+        kf = []
+        for i, o in enumerate(others):
+            kf.append({"name": "k%d" % i, "over": None,
+                       "acts": [{"kind": "go", "far": "k%db" % i, "needs": [geq(o["needs_tick"])]}]})
+            kf.append({"name": "k%db" % i, "over": None, "acts": [{"kind": "bid", "verb": o["verb"], "targets": o["targets"]}]})
+        framers.append({"name": "m1", "sched": "active", "order": draw(st.sampled_from(["front", "back", None])),
+                        "period": None, "first": None, "frames": kf})
+    return {"period": "0.125", "ticks": draw(st.integers(6, 14)), "inits": [[p, 0] for p in NUM],
+            "framers": framers}
